@@ -78,6 +78,7 @@ def run(pid, tier, seed):
         "list_roundtrips_replayed": cnt.get("list_roundtrips", 0),
         "random_trace_events_validated_by_tlc": validated,
         "model_invariants_checked": ["C12Holds", "C13Holds", "C14Holds"],
+        "unexplained_divergences": cnt.get("listing_spelled_differently_from_model", 0),   # LIST spelling differs from the model's but reloads
         "tlc_wall_s": stats["wall_s"],
         "samples": rep["samples"][:5],
     }
